@@ -8,7 +8,10 @@ LEVEL_TEXT = (
     "parse_resolve_request: hex text decodes back to the bytes it encodes, with or without one 0x prefix, for every "
     "byte string; booleans are read from true/false, 0/1 and \"true\"/\"false\"; from_json and the request's argument "
     "handling return a value or an error for every JSON value and target type (no panic constructor is reachable); the "
-    "argument map handed to the template holds only declared parameters. Per generated case the real from_json and the "
+    "argument map handed to the template holds only declared parameters, and exactly what the request supplies for them: for every name the map "
+    "holds the coerced value of the last entry under that name in env ++ args when the name is declared and nothing otherwise - no supplied "
+    "parameter is dropped, the argument wins over an environment entry of the same name, and every declared entry of an accepted request was "
+    "read successfully (C16_request_args_exact, C16_argument_overrides_env). Per generated case the real from_json and the "
     "real parse_resolve_request (TIR envelope decoded by the real from_bytes) are run on the same JSON and compared "
     "with the model outcome for outcome, including which parameters were set, from args or from env."
 )
@@ -19,10 +22,11 @@ LEVEL_NOTE = (
     "results are fed to the judge from the observation); apply_args on the decoded template is C06's model."
 )
 PROP = "C16"
-TARGETS = ["Tx3Proofs.C16", "Tx3Proofs.C16Int", "Tx3Proofs.C16Ref"]
+TARGETS = ["Tx3Proofs.C16", "Tx3Proofs.C16Int", "Tx3Proofs.C16Ref", "Tx3Proofs.C16Exact"]
 THEOREMS = ["Tx3.Json.C16_hex_roundtrip", "Tx3.Json.C16_hexToBytes_plain", "Tx3.Json.C16_hexToBytes_prefixed",
             "Tx3.Json.C16_bool", "Tx3.Json.C16_fromJson_total", "Tx3.Json.C16_request_args",
-            "Tx3.Json.parseNatChars_natDigits", "Tx3.Json.C16_int_decimal", "Tx3.Json.ofBE16_toBE16", "Tx3.Json.C16_int_hex16", "Tx3.Json.C16_utxo_ref_roundtrip"]
+            "Tx3.Json.parseNatChars_natDigits", "Tx3.Json.C16_int_decimal", "Tx3.Json.ofBE16_toBE16", "Tx3.Json.C16_int_hex16", "Tx3.Json.C16_utxo_ref_roundtrip",
+            "Tx3.Json.go_exact", "Tx3.Json.C16_request_args_exact", "Tx3.Json.C16_argument_overrides_env"]
 RULE = (
     "cases = (a) every admissible encoding of a drawn value per type: integers (boundary i128 / u64 / i64 values) as "
     "JSON number, decimal string, 0x-hex of 16 bytes; booleans as literal, 0/1, strings; byte strings as hex, 0x-hex, "
